@@ -1,8 +1,18 @@
 #!/bin/bash
-# tools/coqchk.sh : re-check every compiled property file (and everything it depends on) with Coq's independent
-# checker and list the axioms the whole development relies on; writes coqchk_report.txt
+# tools/coqchk.sh : re-check every compiled property file, the refinement files against a freshly generated translation of
+# /repo's source, and everything they depend on, with Coq's independent checker; list the axioms the whole development relies on;
+# writes coqchk_report.txt
 cd "$(dirname "$0")/../coq"
+gen=$(mktemp -d /tmp/coqchk_gen.XXXX)
+q="-Q Model PauLie -Q Theory PauLie -Q Props PauLie -Q Refine PauLieRefine -Q $gen PauLieGen"
+for k in classification:Class compiler:Comp pstring:PS collection:Coll parser:Parser; do
+  /venv/bin/python ../tools/py2coq.py /repo $gen/${k#*:}Gen.v ${k%%:*} > /dev/null 2>&1 || echo "translator failed for $k"
+  coqc $q -w -notation-overridden,-deprecated $gen/${k#*:}Gen.v > /dev/null 2>&1
+  coqc $q -w -notation-overridden,-deprecated -o $gen/${k#*:}Refine.vo Refine/${k#*:}Refine.v > /dev/null 2>&1 || echo "refinement ${k#*:}Refine.v failed"
+done
 mods=$(for i in $(seq -w 1 20); do echo PauLie.C$i; done)
-( time timeout 3600 coqchk -silent -o -Q Model PauLie -Q Theory PauLie -Q Props PauLie $mods ) > ../coqchk_report.txt 2>&1
+refs="PauLieGen.ClassRefine PauLieGen.CompRefine PauLieGen.PSRefine PauLieGen.CollRefine PauLieGen.ParserRefine"
+( time timeout 3600 coqchk -silent -o $q $mods $refs ) > ../coqchk_report.txt 2>&1
 echo "exit $?" >> ../coqchk_report.txt
+rm -rf $gen
 tail -25 ../coqchk_report.txt
